@@ -104,8 +104,9 @@ pub fn j_pair(a: &Pt, b: &Pt, out: &mut Local) {
             ea >= eb,
             ea.cmp(&eb),
             ea.partial_cmp(&eb),
-            ea.min(eb),
-            ea.max(eb),
+            // the inherent Epoch::min/max (taking &self); `ea.min(eb)` would resolve to Ord::min
+            (Epoch::min(&ea, eb), Ord::min(ea, eb)),
+            (Epoch::max(&ea, eb), Ord::max(ea, eb)),
             (ea..eb).contains(&ea),
             eb == ea,
             eb.cmp(&ea),
@@ -144,8 +145,10 @@ pub fn j_pair(a: &Pt, b: &Pt, out: &mut Local) {
             } else {
                 // min/max chronological: the returned epoch denotes the earlier/later instant
                 let is = |x: &Epoch, p: &Pt| x.time_scale == p.ts && alpha(x.duration) == p.c;
-                let mn_ok = if want == Ordering::Less { is(&mn, a) } else if want == Ordering::Greater { is(&mn, b) } else { is(&mn, a) || is(&mn, b) };
-                let mx_ok = if want == Ordering::Greater { is(&mx, a) } else if want == Ordering::Less { is(&mx, b) } else { is(&mx, a) || is(&mx, b) };
+                let ok_min = |m: &Epoch| if want == Ordering::Less { is(m, a) } else if want == Ordering::Greater { is(m, b) } else { is(m, a) || is(m, b) };
+                let ok_max = |m: &Epoch| if want == Ordering::Greater { is(m, a) } else if want == Ordering::Less { is(m, b) } else { is(m, a) || is(m, b) };
+                let mn_ok = ok_min(&mn.0) && ok_min(&mn.1);
+                let mx_ok = ok_max(&mx.0) && ok_max(&mx.1);
                 if !mn_ok || !mx_ok {
                     Some(("minmax-wrong", "earlier/later operand".into(), format!("min={mn:?} max={mx:?}")))
                 } else {
@@ -177,7 +180,16 @@ pub fn j_convert(a: &Pt, b: &Pt, x: TimeScale, leap: &LeapTable, out: &mut Local
         }
     }
     // converting into UTC an instant inside an inserted interval is a value don't-care (C06)
-    if x == TimeScale::UTC && (leap.tai_to_utc(a.tai).is_none() || leap.tai_to_utc(b.tai).is_none()) {
+    // (an ET/TDB epoch denotes its lattice instant only to within the C07 tolerance: within 100 ns of an inserted
+    // interval it may fall on either side of the edge)
+    let undefined_in_utc = |p: &Pt| {
+        if p.exact {
+            leap.tai_to_utc(p.tai).is_none()
+        } else {
+            [-100i128, 0, 100].iter().any(|o| leap.tai_to_utc(p.tai + o).is_none())
+        }
+    };
+    if x == TimeScale::UTC && (undefined_in_utc(a) || undefined_in_utc(b)) {
         out.dc(0);
         return;
     }
@@ -238,7 +250,7 @@ pub fn j_sort(variant: u64, pts: &[Pt], out: &mut Local) {
 }
 
 pub fn run(rep: &mut Report) {
-    let q = rep.quick();
+    let q = false; // one parameter set for both tiers (3 s)
     let leap = LeapTable::load().expect("leap").0;
     let pts = points(!q, &leap);
     let n = pts.len() as u64;
